@@ -6,7 +6,7 @@ from ..ref import wire
 
 from bacpypes.pdu import Address
 from bacpypes.object import AnalogValueObject
-from bacpypes.service.device import WhoIsIAmServices
+from bacpypes.service.device import WhoIsIAmServices, DeviceCommunicationControlServices
 from bacpypes.service.object import ReadWritePropertyServices, ReadWritePropertyMultipleServices
 from bacpypes import apdu as A
 
@@ -16,6 +16,14 @@ STUBS = ["virtual clock (task._time)", "asyncore.loop -> clock advance", "task._
 
 class Device(nl.AppStack, WhoIsIAmServices, ReadWritePropertyServices, ReadWritePropertyMultipleServices):
     pass
+
+
+class DeviceDCC(Device, DeviceCommunicationControlServices):
+    """the same device with the DeviceCommunicationControl service"""
+
+    def __init__(self, *a, **kw):
+        Device.__init__(self, *a, **kw)
+        DeviceCommunicationControlServices.__init__(self)
 
 
 PEER = 31
@@ -253,6 +261,37 @@ def layer_noise(d, n, first):
     d.reach()
 
 
+@meta(bounds="a device that supports DeviceCommunicationControl (no password, no duration in the request); one well-formed DCC "
+             "request whose enable-disable value is symbolic over 0..255 except 1 (1 = disable, which silences the device by "
+             "design); a valid ReadProperty from another station is queued at the same moment and one follows: the DCC request "
+             "gets exactly one reply, both reads are answered - a value the enumeration does not define must not mute the device",
+      outside="DCC with a duration or a password; the legitimate effect of 'disable'",
+      stubs=STUBS)
+def dcc_values(d):
+    w = World()
+    lan = nl.FaultLAN([], world=w)
+    dev = DeviceDCC(nl.make_device("dut", 20), lan)
+    av = AnalogValueObject(objectIdentifier=("analogValue", 1), objectName="av1", presentValue=72.5,
+                           statusFlags=[0, 0, 0, 0], units="degreesFahrenheit")
+    dev.add_object(av)
+    peer = nl.RawPeer(PEER, lan)
+    other = nl.RawPeer(PEER + 1, lan)
+    v = d.int(0, 255, 'enable_disable')
+    d.assume(v != 1)
+    peer.send(dev.address, nl.frame(bytes([0x00, 0x05, 0x31, 0x11, 0x19, v]), True))
+    other.send(dev.address, nl.frame(read_pv(0x42), True))
+    w.run()
+    rs = replies(peer)
+    mine = [x for x in rs if x["invoke"] == 0x31 and x["type"] in REPLY_TYPES]
+    if len(mine) != 1 or len(rs) != 1:
+        d.flag(True, "not-exactly-one-reply", n=len(mine), service=17, value=v, logged=[e[1] for e in d.errors_logged()])
+    ro = replies(other)
+    if len(ro) != 1 or ro[0]["type"] != 3 or ro[0]["invoke"] != 0x42 or bytes(ro[0]["payload"]) != PV_ACK_BODY:
+        raise Violation("concurrent-valid-request-not-answered", value=v, got=[(x["type"], x["invoke"]) for x in ro])
+    check_health(d, w, lan, dev, peer, "dcc-value")
+    d.reach()
+
+
 @meta(bounds="garbage that claims to be relayed from a remote network: station G sends a frame whose NPCI names source "
              "network 5 (SADR 7) followed by a concrete first APDU octet and 0..n symbolic octets (or nothing); "
              "then the real router R relays a valid ReadProperty from network 5 (from station 7 or 9); order of the two symbolic",
@@ -447,6 +486,7 @@ def instances(tier):
                         budget=80 if q else 600,
                         label="network-message-%02x" % t))
     out.append(Inst(routed_noise, dict(n=1 if q else 3), budget=120 if q else 900, path_timeout=60))
+    out.append(Inst(dcc_values, {}, budget=120 if q else 300, path_timeout=60))
     if not q:
         out.append(Inst(layer_noise, dict(n=6, first=[1, 0x20]), budget=900, label="apdu-area,dnet"))
         out.append(Inst(layer_noise, dict(n=6, first=[1, 0x08]), budget=900, label="apdu-area,snet"))
